@@ -17,18 +17,19 @@ import (
 // path item, or a chain of parameter / response / path-item references).
 
 var docURLs = []string{
-	"file:///r/s/root.json",  // 0 root
-	"file:///r/s/sib.json",   // 1 sibling file
-	"file:///r/s/sub/o.json", // 2 sub-directory
-	"file:///r/up.json",      // 3 parent directory
-	"http://h/x/y.json",      // 4 absolute URL on another scheme/host
-	"file:///r/s2/p.json",    // 5 sibling directory whose name extends the root directory's name
-	"file:///r/s/sub/q.json", // 6 second document of the sub-directory
-	"file:///r/t/u/v.json",   // 7 cousin directory (two levels)
-	"http://h/r/s/root.json", // 8 same path as the root document, on another scheme and host
+	"file:///r/s/root.json",     // 0 root
+	"file:///r/s/sib.json",      // 1 sibling file
+	"file:///r/s/sub/o.json",    // 2 sub-directory
+	"file:///r/up.json",         // 3 parent directory
+	"http://h/x/y.json",         // 4 absolute URL on another scheme/host
+	"file:///r/s2/p.json",       // 5 sibling directory whose name extends the root directory's name
+	"file:///r/s/sub/q.json",    // 6 second document of the sub-directory
+	"file:///r/t/u/v.json",      // 7 cousin directory (two levels)
+	"http://h/r/s/root.json",    // 8 same path as the root document, on another scheme and host
+	"file:///r/s/root.json.bak", // 9 sibling file whose name extends the root document's name
 }
 
-var docNames = []string{"root", "sibling", "subdir", "parentdir", "absolute-http", "prefix-sibling-dir", "subdir2", "cousin", "same-path-other-site"}
+var docNames = []string{"root", "sibling", "subdir", "parentdir", "absolute-http", "prefix-sibling-dir", "subdir2", "cousin", "same-path-other-site", "name-extends-root-name"}
 
 const (
 	formProperties = iota
